@@ -478,7 +478,7 @@ def coq_term(case, res):
          f"{cq.z(case['ep'])} {cq.z(case['en'])} {cq.label(case['sc'])} {cq.label(case['ec'])} false)")
     p = case["points"]
     parg = "PNone" if p is None else (f"(PInt {cq.z(p)})" if isinstance(p, int) else f"(PArr {cq.qlist(F(v) for v in p)})")
-    m = {"tpr": "MTpr", "fnr": "MFnr", "tnr": "MTnr", "fpr": "MFpr", "topr": "MTopr", "tonr": "MTonr"}[case["metric"]]
+    m = {"tpr": "NTpr", "fnr": "NFnr", "tnr": "NTnr", "fpr": "NFpr", "topr": "NTopr", "tonr": "NTonr"}[case["metric"]]
     if r.get("raised"):
         result = "ErrValue"
     elif "by_name" in r and r["by_name"].get("bare") is not None:
